@@ -503,7 +503,7 @@ func (tm *Termer) allocTerm(a *ssa.Alloc) *Term {
 		// spilled parameter / single-assignment local
 		return tm.Of(info.wholeStores[0].Val)
 	}
-	if len(info.wholeStores) == 0 && len(info.fieldStores) > 0 && len(info.addrCalls) == 0 && !info.closureSt {
+	if len(info.wholeStores) == 0 && len(info.fieldStores) > 0 && !info.closureSt {
 		// struct literal
 		st, _ := elem.Underlying().(*types.Struct)
 		var args []*Term
